@@ -252,3 +252,21 @@ def register(claim, na):
         "SymTrace path exploration with z3 for the dictionary round trip; ground (concrete) execution for text/JSON/file/artefact round trips",
         "DESIGN.md §1 E2, §2 C11",
     )
+    claim(
+        "C20", "model_checking",
+        "One generic harness over ~95 scenarios covering the listed value-returning operations (operator + - * / ** == simplify, conjugation, qubit "
+        "reversal, to-dict and string views on three receiver and two argument shapes; measurement get_counts / get_distribution / "
+        "get_expectation_values with both denominators / from_counts / expectation from frequencies; the distribution constructor on unnormalised "
+        "input with tuple and string keys, subdistribution, MMD / clipped NLL / JSD and evaluate_distribution_distance; wavefunction probability views "
+        "over the whole acceptance band of the norm; sixteen circuit / gate operations incl. apply(state), bind(map), serialisation and the simulator): "
+        "every argument and the receiver are built with SYMBOLIC leaves (coefficients, counts, weights, amplitudes as z3 terms; circuits on sympy "
+        "symbols), deep snapshots are taken before the call, after it and after a second call on the same shared objects, and on EVERY feasible path of "
+        "the real code (SymTrace explorer, z3 feasibility) the snapshots must be equal - structure concretely, symbolic leaves by z3 under the path "
+        "condition - and the two results must be equal. A value-dependent mutation (an in-place rescale that happens only off the exact norm) is found on "
+        "the path where it happens.",
+        "numpy in-place arithmetic with symbolic scalars is modelled by the elements' Python operators writing into the same array (vf/symtrace "
+        "__array_ufunc__). Lazily filled caches are not observable state. Raising first calls are not examined. Operations whose arguments cannot be "
+        "symbolic here (parities on integer arrays, real sampling, file saves, scipy expectation, the averaging estimator) run as ground instances.",
+        "SymTrace path exploration with z3 + deep structural snapshots around each call (symbolic leaves compared by z3 per path)",
+        "DESIGN.md §1 E1/E2, §2 C20",
+    )
